@@ -273,7 +273,7 @@ def fract (a : D128) : D128R := sub a (trunc a)
 /-! ## rescale (FEEL `decimal(n, scale)`) -/
 
 /-- `decNumberRescale(a, newExp)` (`decQuantizeOp`, `decNumber.c:5829`), `newExp` already
-checked to lie in `eTiny..eMax` (FEEL checks `-6111 ≤ scale < 6176`, `core.rs:292`):
+checked to lie in `eTiny..eMax` (FEEL checks `-6111 ≤ scale ≤ 6176`, `core.rs:292`, fix 10239df):
 a zero just gets the exponent; digits are dropped half-even or zeros appended; a result that
 would need more than 34 digits is `NaN` (Invalid operation). -/
 def rescaleExp (a : D128) (newExp : Int) : D128R :=
@@ -478,7 +478,9 @@ def cmp (a b : D128R) : Ordering :=
   | _ => .lt
 
 /-- `impl Rem` (`number.rs:328`) and FEEL `modulo` (`core.rs:690`, where every operator reduces;
-the final value is the same): `a - b·floor(a / b)`, every step rounded -/
+the final value is the same): `a - b·floor(a / b)`, every step rounded — which is not the
+mathematical modulo when the quotient or the product needs more than 34 digits (finding
+F65-modulo; specification: `ModuloSpec`, `Model/DecSpec.lean`) -/
 def modulo (a b : D128R) : D128R :=
   sub a (mul b (floor (div a b)))
 
